@@ -31,7 +31,7 @@ func init() {
 			{Name: "send-best-effort", Mode: "enum", Bound: b, Reset: kit.ResetGlobals, Body: func() { sendModes("besteffort") },
 				NeedCounters: []string{"best-effort-returned-at-once", "best-effort-dropped"}},
 			{Name: "fail-no-peers", Mode: "enum", Bound: b, Reset: kit.ResetGlobals, Body: failNoPeers,
-				NeedCounters: []string{"nopeers-at-call", "nopeers-when-last-peer-leaves"}},
+				NeedCounters: []string{"nopeers-at-call", "nopeers-when-last-peer-leaves", "one-of-two-peers-leaves"}},
 		}
 	})
 }
@@ -352,9 +352,13 @@ func sendModes(mode string) {
 	kit.Must("Close", func() { _ = x.S.Close() })
 }
 
+// FailNoPeers is the fail-no-peers body (also run under C02: a Send that waits because every peer
+// is busy is not failed while a peer is still connected).
+func FailNoPeers() { failNoPeers() }
+
 func failNoPeers() {
 	k := pickKind()
-	variant := kit.ChooseFree(3)
+	variant := kit.ChooseFree(5)
 	var x *kinds.Sock
 	if variant == 0 {
 		x = k.Open("c18f", false, true)
@@ -419,6 +423,45 @@ func failNoPeers() {
 			kit.Failf("nopeers-recv-leave:"+k.Name, "%s: the last peer left while Recv waited: done=%v %s, want ErrNoPeers at that instant", k.Name, c.Done(), kit.ErrName(c.Err))
 		}
 		kit.Count("nopeers-when-last-peer-leaves")
+	case 3: // one of two peers leaves while a Send waits: a peer is still connected, nothing fails
+		if !k.CanSend {
+			return
+		}
+		_ = x.S.SetOption(mangos.OptionWriteQLen, 1)
+		other := x.EP.Connect()
+		kit.Quiesce()
+		c, _ := blockSend(x, "np2")
+		if c == nil {
+			return
+		}
+		x.P.DropNow()
+		kit.Quiesce()
+		if c.Done() && c.Err == mangos.ErrNoPeers {
+			kit.Failf("nopeers-with-a-peer-connected:"+k.Name, "%s: two peers connected (both slow), Send waiting; one peer left and Send returned ErrNoPeers although the other is still connected", k.Name)
+		}
+		other.Hold(false)
+		kit.Quiesce()
+		if !c.Done() || c.Err != nil {
+			kit.Failf("nopeers-with-a-peer-connected:"+k.Name, "%s: one of two peers left while Send waited, then the remaining peer took everything: Send done=%v %s", k.Name, c.Done(), kit.ErrName(c.Err))
+		}
+		kit.Count("one-of-two-peers-leaves")
+	case 4: // one of two peers leaves while a Recv waits
+		if !k.CanRecv {
+			return
+		}
+		x.P.Hold(false)
+		other := x.EP.Connect()
+		other.Hold(false)
+		kit.Quiesce()
+		x.PrepRecv()
+		c := kit.Start("Recv", func() (interface{}, error) { return x.Recv() })
+		kit.Quiesce()
+		x.P.DropNow()
+		kit.Quiesce()
+		if c.Done() && c.Err == mangos.ErrNoPeers {
+			kit.Failf("nopeers-with-a-peer-connected:"+k.Name, "%s: two silent peers connected, Recv waiting; one peer left and Recv returned ErrNoPeers although the other is still connected", k.Name)
+		}
+		kit.Count("one-of-two-peers-leaves")
 	}
 	kit.Observe("%s v=%d", k.Name, variant)
 	kit.Must("Close", func() { _ = x.S.Close() })
